@@ -175,10 +175,10 @@ def run(c):
         "code of other modules that works on objects shared by all runs: gogrep v0.5.0 (MatchNode on a shared gogrep.Pattern with a "
         "caller-owned MatcherState), regexp (documented as safe for concurrent use except Longest), go/types objects of the cached "
         "packages -- pinned versions, not scanned; only the methods called on regexp.Regexp / gogrep.Pattern are checked",
-        "hypotheses of findtype_linearizable / history_independent: the importer is a deterministic function of the name, and where "
-        "the dependencies of the checked package and the importer both resolve a name they yield the same type (same source; "
-        "checked on the tables of every correspondence case and, for the implementation, through xtypes identity with the host's "
-        "type: same_as_host)",
+        "hypothesis of findtype_linearizable / history_independent: the importer is a deterministic function of the name (what the "
+        "dependencies of a package answer may differ from package to package and from the importer: the dependency answer takes "
+        "precedence, fix d9e46be); answers are compared with the calling package's own dependency object (identity) or, for importer "
+        "answers, with the host's type through xtypes identity (same_as_host)",
         "harness/cmd/c08 (built with -race), hooks ruleguard.VerifFindType / VerifTypeCache / VerifPkgCache / VerifNativeNames, the Go race "
         "detector; the generator of the natives rule sets (type-directed arguments from go/types on the dsl packages; a native it "
         "cannot call is reported, the reviewed exceptions are in UNREACHABLE_NATIVES)",
@@ -189,6 +189,9 @@ def run(c):
         "defect fixed in /repo (was known finding %s): dependency-resolved types were cached engine-wide under the bare name, so a "
         "warm cache answered for packages whose lone run panics in GetType; the guard `masked` stays as the description of that "
         "shape, nothing is suppressed any more" % FINDING,
+        "second defect fixed in /repo (d9e46be): FindType looked into the engine-wide cache before the dependencies of the package "
+        "being checked, so a cached importer answer was served to a package whose dependencies resolve the path differently; found by "
+        "the in-memory package c08/mtsh (its own container/ring) once the natives rule set asked for container/ring.Ring everywhere",
     ]
 
     # a private translator binary (main.go + leaf.go + c15.go + locks.go): other families' generators cannot break it
@@ -473,9 +476,6 @@ def run(c):
                "Definition imp (k : N) : option N := lookup N.eqb k itab.",
                "Definition dep (p k : N) : option (option N) := option_map (fun e : N * N * option N => snd e) "
                "(find (fun e : N * N * option N => (fst (fst e) =? p) && (snd (fst e) =? k)) dtab).",
-               # the hypothesis of history_independent / findtype_linearizable, checked on the tables
-               "Definition consistentb : bool := forallb (fun e : N * N * option N => match imp (snd (fst e)) with "
-               "None => true | Some v => oeqb (snd e) (Some v) end) dtab.",
                "Definition valid_entry (c0 : list (N * N)) (e : N * N) : bool := oeqb (lookup N.eqb (fst e) c0) (Some (snd e)) || "
                "oeqb (imp (fst e)) (Some (snd e))."]
         res_items = []
@@ -489,13 +489,13 @@ def run(c):
             if kind == "seq":
                 # model run vs observed results; model cache vs observed cache (both inclusions); lone answers vs observed
                 src.append("Definition %s_res := let m := run_dep N.eqb imp dep %s_c0 %s_ops in "
-                           "(mism 0 (fst m) %s_obs, consistentb && cache_sub (snd m) %s_c1 && cache_sub %s_c1 (snd m), "
+                           "(mism 0 (fst m) %s_obs, cache_sub (snd m) %s_c1 && cache_sub %s_c1 (snd m), "
                            "mism 0 (map (lone N.eqb imp dep %s_c0) %s_ops) %s_obs)." % ((name,) * 9))
             else:
                 # any interleaving: initial entries kept, only valid entries added, every success is in the cache;
                 # lone answers vs observed
                 src.append("Definition %s_res := "
-                           "(@nil N, consistentb && cache_sub %s_c0 %s_c1 && forallb (valid_entry %s_c0) %s_c1 && "
+                           "(@nil N, cache_sub %s_c0 %s_c1 && forallb (valid_entry %s_c0) %s_c1 && "
                            "forallb (fun x : (N * N) * option N => match snd x, dep (fst (fst x)) (snd (fst x)) with "
                            "Some v, None => oeqb (lookup N.eqb (snd (fst x)) %s_c1) (Some v) | _, _ => true end) (combine %s_ops %s_obs), "
                            "mism 0 (map (lone N.eqb imp dep %s_c0) %s_ops) %s_obs)." % ((name,) * 11))
@@ -528,7 +528,8 @@ def run(c):
                 c.fail("oracle", "FindType answered differently from a lone call on a fresh engine",
                        input=dict(inp, op=i, pkg=(ft.targets[p] if p >= 0 else None), fqn=f,
                                   script=[(ft.targets[q] if q >= 0 else None, g) for q, g in ops[:i + 1]] if kind == "seq" else None),
-                       expected=ft.oracle2(p, f) if f not in c0["keys"] else dict(zip(c0["keys"], c0["types"]))[f],
+                       expected=(ft.oracle2(p, f) if f not in c0["keys"] or ft.dep(p, f)[0] == "dep"
+                                 else dict(zip(c0["keys"], c0["types"]))[f]),
                        observed=obs[i], finding=FINDING if masked else None)
             if not oracle_hit:
                 for i in model_bad[:4]:
